@@ -1,8 +1,285 @@
-/- EmdModel.Extrema — (stub; filled in by the property that owns it) -/
+/-
+  EmdModel.Extrema — model of emd/sift.py: `_find_extrema`, `compute_parabolic_extrema`,
+  `get_padded_extrema`, `interp_envelope` (C05).
+
+  * `findPeaks`      scipy `argrelextrema(x, np.greater, order=1)` (mode='clip'): an index is an
+                     extremum iff the sample is strictly greater than both neighbours; the two end
+                     samples are compared with themselves and never qualify; plateaus never qualify.
+  * `parabolic`      the 3-point vertex refinement: a rational function of the three samples,
+                     modelled exactly (not an oracle).
+  * `padOddOnce`     one chunk of numpy's `np.pad(mode='reflect', reflect_type='odd')`;
+    `padOdd`         numpy ≥ 2 iterates chunks while the pad width exceeds what one reflection can
+                     deliver (the code clips `pad_width` to the number of extrema, so width = length occurs).
+  * `padEdge`        `np.pad(mode='median', stat_length=1)` = replicate the edge value.
+  * `padLoop`        the `while max(locs) < len(X) or min(locs) >= 0` re-padding (fuel: `len(X)+1`
+                     rounds always suffice — theorem `C05.paddedExtrema_terminates`).
+  * `envGrid`        the points at which `interp_envelope` evaluates the interpolant:
+                     `np.arange(ceil(locs[0]), locs[-1])` restricted to `[0, n)`.
+    `envGridPinned`  the grid of the pinned tree, `np.arange(locs[0], locs[-1])` (defect D17:
+                     fractional whenever `locs[0]` is, i.e. with parabolic refinement).
+  * `interpEnvelope` takes the interpolant as an oracle `I : Interp`.
+
+  Locations and magnitudes are `Rat` throughout (integer sample indices are embedded).
+-/
 import EmdModel.Protocol
 
 namespace Extrema
 
-def handle (_o : Protocol.Op) : Option String := none
+/-! ### extrema detection -/
+
+/-- strict interior local maxima of the list whose head has index `i` -/
+def peaksFrom : Nat → List Rat → List Nat
+  | i, a :: b :: c :: t =>
+    if a < b ∧ c < b then (i + 1) :: peaksFrom (i + 1) (b :: c :: t)
+    else peaksFrom (i + 1) (b :: c :: t)
+  | _, _ => []
+
+def findPeaks (x : Sig) : List Nat := peaksFrom 0 x
+def findTroughs (x : Sig) : List Nat := findPeaks (Sig.neg x)
+
+/-- `x[i]` (0 outside; only used at indices of detected extrema and their neighbours) -/
+def at' (x : Sig) (i : Nat) : Rat := x.getD i 0
+
+/-- `compute_parabolic_extrema` on one triple: (offset of the vertex from the middle sample,
+    height of the vertex).  `abc = w_inv · y`, `tp = -b/(2a)`, `t = tp - 2 + loc`, `ŷ = tp·b/2 + c`. -/
+def parabolic (y0 y1 y2 : Rat) : Rat × Rat :=
+  let a := y0 / 2 - y1 + y2 / 2
+  let b := -(5 / 2) * y0 + 4 * y1 - (3 / 2) * y2
+  let c := 3 * y0 - 3 * y1 + y2
+  let tp := -b / (2 * a)
+  (tp - 2, tp * b / 2 + c)
+
+def refinedLoc (y : Sig) (i : Nat) : Rat := (parabolic (at' y (i - 1)) (at' y i) (at' y (i + 1))).1 + (i : Rat)
+def refinedMag (y : Sig) (i : Nat) : Rat := (parabolic (at' y (i - 1)) (at' y i) (at' y (i + 1))).2
+
+/-- `_find_extrema(y, parabolic_extrema=parab)`: (locations, magnitudes) -/
+def rawExtrema (parab : Bool) (y : Sig) : List Rat × List Rat :=
+  let p := findPeaks y
+  if parab then (p.map (refinedLoc y), p.map (refinedMag y))
+  else (p.map (fun (i : Nat) => (i : Rat)), p.map (at' y))
+
+inductive Mode | peaks | troughs | absPeaks
+  deriving DecidableEq, Repr
+
+/-- the mode switch of `get_padded_extrema` -/
+def extrema (m : Mode) (parab : Bool) (x : Sig) : List Rat × List Rat :=
+  match m with
+  | .peaks => rawExtrema parab x
+  | .troughs => ((rawExtrema parab (Sig.neg x)).1, Sig.neg (rawExtrema parab (Sig.neg x)).2)
+  | .absPeaks => rawExtrema parab (x.map Rat.abs')
+
+/-! ### padding -/
+
+/-- the `c` values after the first one, odd-reflected about the first: `2·l[0] - l[c], …, 2·l[0] - l[1]` -/
+def leftRefl (c : Nat) : List Rat → List Rat
+  | [] => []
+  | a :: t => (t.take c).reverse.map fun v => 2 * a - v
+
+/-- the `c` values before the last one, odd-reflected about the last: `2·l[-1] - l[-2], …, 2·l[-1] - l[-1-c]` -/
+def rightRefl (c : Nat) (l : List Rat) : List Rat :=
+  match l.reverse with
+  | [] => []
+  | z :: r => (r.take c).map fun v => 2 * z - v
+
+/-- one reflection chunk of `np.pad(l, c, 'reflect', reflect_type='odd')` (`c ≤ len - 1`) -/
+def padOddOnce (c : Nat) (l : List Rat) : List Rat := leftRefl c l ++ l ++ rightRefl c l
+
+/-- numpy's loop: `rem` values are still missing on either side; one iteration delivers
+    `min(period, rem)` with `period = ((len-1) div (m-1))·(m-1)`, `m` the original length -/
+def padOddAux (m : Nat) : Nat → Nat → List Rat → List Rat
+  | 0, _, l => l
+  | f + 1, rem, l =>
+    if rem = 0 then l
+    else
+      let c := min (((l.length - 1) / (m - 1)) * (m - 1)) rem
+      padOddAux m f (rem - c) (padOddOnce c l)
+
+/-- `np.pad(l, w, 'reflect', reflect_type='odd')` (numpy ≥ 2).  A singleton is edge-replicated
+    (numpy's legacy branch); the empty array (numpy raises) never reaches this function. -/
+def padOdd (w : Nat) (l : List Rat) : List Rat :=
+  match l with
+  | [] => []
+  | [a] => List.replicate w a ++ [a] ++ List.replicate w a
+  | _ => padOddAux l.length w w l
+
+/-- `np.pad(m, w, 'median', stat_length=1)`: replicate the edge values -/
+def padEdge (w : Nat) (m : List Rat) : List Rat :=
+  match m.head?, m.getLast? with
+  | some a, some z => List.replicate w a ++ m ++ List.replicate w z
+  | _, _ => m
+
+/-- `min(l)` / `max(l)` of a non-empty array (0 for the empty one, never used) -/
+def lmin : List Rat → Rat
+  | [] => 0
+  | [a] => a
+  | a :: t => if a ≤ lmin t then a else lmin t
+def lmax : List Rat → Rat
+  | [] => 0
+  | [a] => a
+  | a :: t => if lmax t ≤ a then a else lmax t
+
+/-- the loop condition `max(locs) < len(X) or min(locs) >= 0` -/
+def needsMore (n : Nat) (l : List Rat) : Bool := decide (lmax l < (n : Rat)) || decide (0 ≤ lmin l)
+
+/-- the re-padding loop; `none` = out of fuel -/
+def padLoop (w n : Nat) : Nat → List Rat → List Rat → Option (List Rat × List Rat)
+  | 0, _, _ => none
+  | f + 1, l, m =>
+    if needsMore n l then padLoop w n f (padOdd w l) (padEdge w m) else some (l, m)
+
+inductive PadResult
+  | none                               -- fewer than two extrema: the code returns (None, None)
+  | fuel                               -- the model's loop bound was hit (proved impossible)
+  | ok (locs mags : List Rat)
+  deriving Repr, DecidableEq
+
+/-- `get_padded_extrema(x, pad_width=w, mode, parabolic_extrema=parab)` with the default pad options -/
+def paddedExtrema (w : Nat) (m : Mode) (parab : Bool) (x : Sig) : PadResult :=
+  let l := (extrema m parab x).1
+  let e := (extrema m parab x).2
+  if l.length ≤ 1 then .none
+  else
+    let w := if l.length < w then l.length else w
+    if w = 0 then .ok l e
+    else
+      match padLoop w x.length (x.length + 1) (padOdd w l) (padEdge w e) with
+      | some r => .ok r.1 r.2
+      | none => .fuel
+
+/-! ### envelope -/
+
+/-- the interpolant (splrep/splev, PchipInterpolator, pchip) is an oracle -/
+structure Interp where
+  eval : List Rat → List Rat → Rat → Rat
+
+/-- the contract of the oracle used by the pass-through theorems (validated against scipy on every run):
+    through strictly increasing knots the interpolant takes the knot values -/
+def Interp.Interpolates (I : Interp) : Prop :=
+  ∀ (locs mags : List Rat) (i : Nat) (t v : Rat), locs.Pairwise (· < ·) → locs.length = mags.length →
+    locs[i]? = some t → mags[i]? = some v → I.eval locs mags t = v
+
+/-- `np.arange(start, stop)` (step 1): `ceil(stop - start)` values `start + k` -/
+def arange (start stop : Rat) : List Rat :=
+  (List.range (stop - start).ceil.toNat).map fun (k : Nat) => start + (k : Rat)
+
+def onSamples (n : Nat) (t : Rat) : Bool := decide (0 ≤ t) && decide (t < (n : Rat))
+
+/-- evaluation points of `interp_envelope`: the integers from `ceil(locs[0])` below `locs[-1]`, kept in `[0, n)` -/
+def envGrid (locs : List Rat) (n : Nat) : List Rat :=
+  match locs.head?, locs.getLast? with
+  | some a, some z => (arange ((a.ceil : Int) : Rat) z).filter (onSamples n)
+  | _, _ => []
+
+/-- evaluation points on the pinned tree (before the D17 repair): `arange(locs[0], locs[-1])` kept in `[0, n)` -/
+def envGridPinned (locs : List Rat) (n : Nat) : List Rat :=
+  match locs.head?, locs.getLast? with
+  | some a, some z => (arange a z).filter (onSamples n)
+  | _, _ => []
+
+inductive EMode | upper | lower | combined
+  deriving DecidableEq, Repr
+
+def EMode.toMode : EMode → Mode
+  | .upper => .peaks
+  | .lower => .troughs
+  | .combined => .absPeaks
+
+inductive EnvResult
+  | none                                  -- no envelope (fewer than two extrema)
+  | valueError                            -- 'Envelope length does not match input data'
+  | fuel
+  | ok (env locs mags : List Rat)
+  deriving Repr, DecidableEq
+
+/-- `interp_envelope(x, mode, interp_method, extrema_opts={pad_width: w, parabolic_extrema: parab}, ret_extrema=True)` -/
+def interpEnvelope (I : Interp) (em : EMode) (w : Nat) (parab : Bool) (x : Sig) : EnvResult :=
+  match paddedExtrema w em.toMode parab x with
+  | .none => .none
+  | .fuel => .fuel
+  | .ok l e =>
+    let env := (envGrid l x.length).map (I.eval l e)
+    if env.length ≠ x.length then .valueError else .ok env l e
+
+/-! ### protocol -/
+
+/-- the oracle as a table of the interpolant's values at the sample indices 0..n-1 -/
+def tableInterp (tab : List Rat) : Interp :=
+  { eval := fun _ _ t => if t.den = 1 ∧ 0 ≤ t.num then tab.getD t.num.toNat 0 else 0 }
+
+def onTable (n : Nat) (t : Rat) : Bool := t.den = 1 && decide (0 ≤ t.num) && decide (t.num.toNat < n)
+
+def parseMode? : String → Option Mode
+  | "peaks" => some .peaks
+  | "troughs" => some .troughs
+  | "abs_peaks" => some .absPeaks
+  | _ => none
+
+def parseEMode? : String → Option EMode
+  | "upper" => some .upper
+  | "lower" => some .lower
+  | "combined" => some .combined
+  | _ => none
+
+def parseBool? : String → Option Bool
+  | "0" => some false
+  | "1" => some true
+  | _ => none
+
+/-- smallest distance of a loop decision (`max < n`, `min ≥ 0`) from its threshold, over all rounds -/
+def loopMargin (w n : Nat) : Nat → List Rat → Rat → Rat
+  | 0, _, acc => acc
+  | f + 1, l, acc =>
+    let d1 := Rat.abs' (lmax l - (n : Rat))
+    let d2 := Rat.abs' (lmin l)
+    let acc := if d1 < acc then d1 else acc
+    let acc := if d2 < acc then d2 else acc
+    if needsMore n l then loopMargin w n f (padOdd w l) acc else acc
+
+open Protocol in
+def handle (o : Op) : Option String :=
+  match o.name with
+  | "PEAKS" => some <| Id.run do
+      let some x := o.vec? 0 | return "bad-op"
+      return s!"ok | {fmtNats (findPeaks x)} | {fmtNats (findTroughs x)}"
+  | "PADODD" => some <| Id.run do
+      let some w := o.nat? "w" | return "bad-op"
+      let some l := o.vec? 0 | return "bad-op"
+      if l.isEmpty then return (if w = 0 then "ok | " else "err ValueError")
+      return s!"ok | {fmtVec (padOdd w l)} | {fmtVec (padEdge w l)}"
+  | "PADEXT" => some <| Id.run do
+      let some w := o.nat? "pad" | return "bad-op"
+      let some m := (o.str? "mode") >>= parseMode? | return "bad-op"
+      let some parab := (o.str? "parab") >>= parseBool? | return "bad-op"
+      let some x := o.vec? 0 | return "bad-op"
+      match paddedExtrema w m parab x with
+      | .none => return "none"
+      | .fuel => return "err Fuel"
+      | .ok l e =>
+        let l0 := (extrema m parab x).1
+        let w' := if l0.length < w then l0.length else w
+        let margin := if w' = 0 then (1 : Rat) else loopMargin w' x.length (x.length + 1) (padOdd w' l0) 1
+        return s!"ok margin={fmtRat margin} | {fmtVec l} | {fmtVec e}"
+  | "GRID" => some <| Id.run do
+      let some n := o.nat? "n" | return "bad-op"
+      let some pinned := (o.str? "pinned") >>= parseBool? | return "bad-op"
+      let some l := o.vec? 0 | return "bad-op"
+      return s!"ok | {fmtVec (if pinned then envGridPinned l n else envGrid l n)}"
+  | "ENV" => some <| Id.run do
+      let some w := o.nat? "pad" | return "bad-op"
+      let some em := (o.str? "emode") >>= parseEMode? | return "bad-op"
+      let some parab := (o.str? "parab") >>= parseBool? | return "bad-op"
+      let some x := o.vec? 0 | return "bad-op"
+      let some tabs := o.slot? 1 | return "bad-op"
+      let tab := tabs.getD []
+      match interpEnvelope (tableInterp tab) em w parab x with
+      | .none => return "none"
+      | .fuel => return "err Fuel"
+      | .valueError => return "err ValueError"
+      | .ok env l e =>
+        -- the oracle table must cover every evaluation point of the model
+        if tab.length ≠ x.length ∨ !(envGrid l x.length).all (onTable x.length) then
+          return "oracle-desync table does not cover the model's evaluation grid"
+        return s!"ok | {fmtVec env} | {fmtVec l} | {fmtVec e}"
+  | _ => none
 
 end Extrema
